@@ -57,13 +57,24 @@ func values(typ string) []interface{} {
 	case "chan int":
 		return []interface{}{ch1, ch2}
 	case "interface{}":
-		return []interface{}{5, "s", vars.S{A: 1}, sp1, string([]byte("boxed")) /* equal string, other backing array */}
+		// among them typed nils: an interface holding one is not nil
+		return []interface{}{5, "s", vars.S{A: 1}, sp1, string([]byte("boxed")) /* equal string, other backing array */, (*vars.S)(nil), []int(nil), map[string]int(nil)}
 	case "error":
-		return []interface{}{e1, e2}
+		return []interface{}{e1, e2, (*ptrErr)(nil)}
 	case "[40]byte":
 		return []interface{}{[40]byte{9}, [40]byte{}}
 	}
 	panic(typ)
+}
+
+// ptrErr implements error on the pointer: (*ptrErr)(nil) in an error variable is a non-nil error
+type ptrErr struct{ msg string }
+
+func (e *ptrErr) Error() string {
+	if e == nil {
+		return "nil ptrErr"
+	}
+	return e.msg
 }
 
 func memOf(addr unsafe.Pointer, n uintptr) string {
@@ -174,6 +185,11 @@ func TestC08(t *testing.T) {
 				var vm mocker.VarMock
 				if alive {
 					alive = step("lookup", func() { vm = mk() })
+				}
+				if alive && rng.Chance(1, 3) {
+					// the builder is asked a second time before anything was set; the user goes on with the object
+					// obtained first
+					alive = step("lookup-again-before-any-set (first object kept)", func() { _ = mk() })
 				}
 				if alive && rng.Chance(1, 3) {
 					// the program itself assigns the variable after the mocker was obtained and before the first mock:
